@@ -513,6 +513,10 @@ theorem main0Match_P {f : F} (hf : FP e0 f) {fuel : Nat} {cfg : Cfg} {scope : Na
     have hp := blockMatch_P hfor horc hf hb
     simp only at heq
     split at heq
+    · simp only [Prod.mk.injEq, MRes.raise.injEq] at heq
+      obtain ⟨rfl, rfl⟩ := heq
+      exact hp.mono le ⟨[_], rfl⟩
+    split at heq
     · split at heq
       · simp only [Prod.mk.injEq, MRes.raise.injEq] at heq
         exact Prov.of_ne (lit_ne hfor (Or.inl heq.1.symm))
